@@ -98,6 +98,8 @@ def w1b_fill(n1: int, n2: int, n3: int, n4: int, n5: int, n6: int, h1: bool, h2:
 
 
 WS = ' \n\t'
+# (named constant: CrossHair reads the contract from the SOURCE text, where a backslash escape inside the docstring would be doubled)
+W1A_ALPH = 'x \n\t'
 
 
 def _oracle_words(frags):
@@ -120,7 +122,7 @@ def _oracle_words(frags):
        note='two fragments + a trailing hard/soft break fragment; texts over {x, space, newline, tab} of each length; per-fragment wordwrap flag symbolic')
 def w1a_words(a1: int, a2: int, a3: int, b1: int, b2: int, b3: int, wa: bool, wb: bool, hard: bool) -> bool:
     """
-    pre: all_in('x \\n\\t', P('k1'), a1, a2, a3) and all_in('x \\n\\t', P('k2'), b1, b2, b3)
+    pre: all_in(W1A_ALPH, P('k1'), a1, a2, a3) and all_in(W1A_ALPH, P('k2'), b1, b2, b3)
     pre: fixed(wa, 'wa') and fixed(wb, 'wb')
     post: _
     """
